@@ -684,3 +684,82 @@ Print Assumptions C14_parse_of_returned_clean_text.
 Print Assumptions C14_parsed_text_annotation_reaches_returned_graph.
 Print Assumptions C14_parsed_text_annotation_not_gained.
 Print Assumptions C14_parsed_text_nonvacuous.
+
+(** ------------------------------------------------------------------------------------------
+    Cuts WITH `!` bonds (shared atoms; steps in which squash_atoms removes atoms): Dialect/SquashedAnnot.v over the resolver
+    component's step_squashed_returned (C02_step_squashed_returned; it rests on Hydro's QuotientAttrs.squash_keeps_attrs =
+    C10_squash_keeps_attrs) - imports only, no Compose cut model: ANY dictionary of well-formed templates, ANY coarse graph
+    whose base edges join different nodes, coarse and all-atom steps, any aromaticity transcript the contract accepts.
+    Every template atom n of every coarse node mn has ONE image in the returned graph, sg (rho (cf0 n)), which lists mn under
+    fragid; when the copy survives squashing (rho fixes it: always in a step without `!` bonds, and for the first member of
+    every `!` class) every template attribute the step does not write itself is on the image. *)
+From CGV Require Import Dialect.SquashedAnnot Resolve.SquashedReturned Resolve.EdgeCopyGen Resolve.FragidProofs Resolve.BondingDefs.
+From CGV Require Hydro.NumTotal Compose.RebuildWf Hydro.QuotientDefs.
+Theorem C14_annotation_reaches_squashed_returned : forall legacy aa fd prev car fo,
+  tmpl_dict fd -> wf_attrs fd -> NumTotal.hnum_dict fd -> resolve_step_full legacy aa fd prev car = Ok fo ->
+  (forall es, base_edges (fo_meta fo) = Ok es -> wf_edges es) ->
+  (aa = true -> forall g1, car = Some g1 -> RebuildWf.all_no_rs g1) ->
+  exists sg : Z -> Z,
+    (forall x y, In x (node_keys (fo_m3 fo)) -> In y (node_keys (fo_m3 fo)) -> sg x = sg y -> x = y) /\
+    forall pre mn post fv name frag, fo_meta fo = (pre ++ mn :: post)%list ->
+    aget (S "fragname") (na mn) = Some fv -> lookup_fragment fd fv = Some (name, frag) ->
+    exists cf0 : Z -> Z,
+      (forall a b, In a (node_keys frag) -> In b (node_keys frag) -> cf0 a = cf0 b -> a = b) /\
+      forall n, In n frag ->
+        In (cf0 (nk n)) (node_keys (fo_m2 fo)) /\ In (QuotientDefs.rho (fo_m2 fo) (cf0 (nk n))) (node_keys (fo_m3 fo)) /\
+        (exists l, node_get (fo_mol fo) (sg (QuotientDefs.rho (fo_m2 fo) (cf0 (nk n)))) (S "fragid") = Some (VList l) /\ In (VInt (nk mn)) l) /\
+        (QuotientDefs.rho (fo_m2 fo) (cf0 (nk n)) = cf0 (nk n) -> forall key v, ~ In key written_keys_sq -> aget key (na n) = Some v ->
+           node_get (fo_mol fo) (sg (cf0 (nk n))) key = Some v).
+Proof. exact annotation_reaches_squashed_returned. Qed.
+(** ... from the TEXT of an all-atom fragment definition (strip -> parser model -> read_fragment_post -> the step): the value
+    written on the i-th atom token is on the image of the copy of atom i for every coarse node named `name`, when that copy
+    survives; keys written by read_fragment_smiles (TemplateAnnot.written_keys) or by the step (written_keys_sq) excluded *)
+Theorem C14_parsed_text_annotation_reaches_squashed_returned : forall fo name toks dc,
+  FragText.wf toks dc = true -> excluded toks dc = false -> wf_smiles toks = true ->
+  forall clean desc ez ann, strip_bonding_descriptors fo (FragText.render (decorate toks dc)) = Ok (clean, desc, ez, ann) ->
+  forall G, smiles_parse clean = Ok G ->
+  forall bonding ezl T, read_fragment_post (nx_of G) name bonding ezl (ann_list ann) = Ok T ->
+  forall legacy aa fd prev car fo_, tmpl_dict fd -> wf_attrs fd -> NumTotal.hnum_dict fd -> fd_get name fd = Some T ->
+  resolve_step_full legacy aa fd prev car = Ok fo_ ->
+  (forall es, base_edges (fo_meta fo_) = Ok es -> wf_edges es) ->
+  (aa = true -> forall g1, car = Some g1 -> RebuildWf.all_no_rs g1) ->
+  exists sg : Z -> Z,
+    (forall x y, In x (node_keys (fo_m3 fo_)) -> In y (node_keys (fo_m3 fo_)) -> sg x = sg y -> x = y) /\
+    forall pre mn post, fo_meta fo_ = (pre ++ mn :: post)%list -> aget (S "fragname") (na mn) = Some (VStr name) ->
+    exists cf0 : Z -> Z,
+      (forall a b, In a (node_keys T) -> In b (node_keys T) -> cf0 a = cf0 b -> a = b) /\
+      forall pre' body annot post' a key v,
+        decorate toks dc = pre' ++ ITok (TBracket body annot) :: post' ->
+        fragment_node_parser fo (annot_text annot) = Ok a -> In (key, v) a ->
+        ~ In key TemplateAnnot.written_keys -> ~ In key written_keys_sq ->
+        let i := Z.of_nat (atoms_of pre') in
+        In (cf0 i) (node_keys (fo_m2 fo_)) /\
+        (exists l, node_get (fo_mol fo_) (sg (QuotientDefs.rho (fo_m2 fo_) (cf0 i))) (S "fragid") = Some (VList l) /\ In (VInt (nk mn)) l) /\
+        (QuotientDefs.rho (fo_m2 fo_) (cf0 i) = cf0 i -> node_get (fo_mol fo_) (sg (cf0 i)) key = Some v).
+Proof. exact parsed_annotation_reaches_squashed_returned. Qed.
+(** non-vacuity: {[#A][#A]}.{#A=C[C;0.5;x=R;k=v][!]} - the annotated atom is shared by the two residues: four heavy atoms in the
+    bonded graph, atom 3 merged into atom 1, the returned atom 4 lists both coarse nodes and carries the annotation *)
+Example C14_squashed_annotation_nonvacuous :
+  FragText.wf tp_toks sq_dc = true /\ excluded tp_toks sq_dc = false /\ wf_smiles tp_toks = true /\
+  to_string (FragText.render (decorate tp_toks sq_dc)) = "C[C;0.5;x=R;k=v][!]"%string /\
+  strip_bonding_descriptors tp_fo (FragText.render (decorate tp_toks sq_dc)) = Ok (S "C[C]", [(1%nat, [S "!1"])], [], tp_ann) /\
+  (exists G, smiles_parse (S "C[C]") = Ok G /\ read_fragment_post (nx_of G) (S "A") [(1, VList [VStr (S "!1")])] [] (ann_list tp_ann) = Ok sq_T) /\
+  tmpl_dict sq_fd /\ wf_attrs sq_fd /\ NumTotal.hnum_dict sq_fd /\ fd_get (S "A") sq_fd = Some sq_T /\
+  match sq_m3 with
+  | Some m3 =>
+      RebuildWf.all_no_rs m3 /\
+      match resolve_step_full true true sq_fd sq_base (Some m3) with
+      | Ok fo =>
+          (forall es, base_edges (fo_meta fo) = Ok es -> wf_edges es) /\
+          node_keys (fo_m2 fo) = [0; 1; 2; 3] /\ node_keys (fo_m3 fo) = [0; 1; 2] /\
+          map (QuotientDefs.rho (fo_m2 fo)) [0; 1; 2; 3] = [0; 1; 2; 1] /\
+          (node_get (fo_mol fo) 4 (S "fragid"), node_get (fo_mol fo) 4 (S "weight"), node_get (fo_mol fo) 4 (S "chiral"), node_get (fo_mol fo) 4 (S "k"))
+          = (Some (VList [VInt 0; VInt 1]), Some (VFlt (S "0.5")), Some (VStr (S "R")), Some (VStr (S "v")))
+      | Err _ => False
+      end
+  | None => False
+  end.
+Proof. exact squashed_annotation_example. Qed.
+Print Assumptions C14_annotation_reaches_squashed_returned.
+Print Assumptions C14_parsed_text_annotation_reaches_squashed_returned.
+Print Assumptions C14_squashed_annotation_nonvacuous.
